@@ -29,16 +29,16 @@ static int ref_3(Pair< int > const *t) { return t->first(); }
 static int ref_4(Pair< int > const *t, int x) { return t->mix(x); }
 //REF Pair< int >::swap_in(Pair< int > *,Pair< int > *)
 static void ref_5(Pair< int > *t, Pair< int > *o) { t->swap_in(*o); }
-//OPTIONAL Pair< int >::get_a(Pair< int > const *) : c_fnames,c_string_fnames,c,c_string,c_fnames_fptrs,c_fnames_uniq,c_fnames_nodb,c_true_names
+//OPTIONAL Pair< int >::get_a(Pair< int > const *) : c_fnames,c_string_fnames,c,c_string,c_fnames_fptrs,c_fnames_uniq,c_fnames_nodb,c_true_names,py_string_fnames,py_fnames,py
 //REF Pair< int >::get_a(Pair< int > const *)
 static int ref_6(Pair< int > const *t) { return t->_a; }
-//OPTIONAL Pair< int >::set_a(Pair< int > *,int) : c_fnames,c_string_fnames,c,c_string,c_fnames_fptrs,c_fnames_uniq,c_fnames_nodb,c_true_names
+//OPTIONAL Pair< int >::set_a(Pair< int > *,int) : c_fnames,c_string_fnames,c,c_string,c_fnames_fptrs,c_fnames_uniq,c_fnames_nodb,c_true_names,py_string_fnames,py_fnames,py
 //REF Pair< int >::set_a(Pair< int > *,int)
 static void ref_7(Pair< int > *t, int v) { t->_a = v; }
-//OPTIONAL Pair< int >::get_b(Pair< int > const *) : c_fnames,c_string_fnames,c,c_string,c_fnames_fptrs,c_fnames_uniq,c_fnames_nodb,c_true_names
+//OPTIONAL Pair< int >::get_b(Pair< int > const *) : c_fnames,c_string_fnames,c,c_string,c_fnames_fptrs,c_fnames_uniq,c_fnames_nodb,c_true_names,py_string_fnames,py_fnames,py
 //REF Pair< int >::get_b(Pair< int > const *)
 static int ref_8(Pair< int > const *t) { return t->_b; }
-//OPTIONAL Pair< int >::set_b(Pair< int > *,int) : c_fnames,c_string_fnames,c,c_string,c_fnames_fptrs,c_fnames_uniq,c_fnames_nodb,c_true_names
+//OPTIONAL Pair< int >::set_b(Pair< int > *,int) : c_fnames,c_string_fnames,c,c_string,c_fnames_fptrs,c_fnames_uniq,c_fnames_nodb,c_true_names,py_string_fnames,py_fnames,py
 //REF Pair< int >::set_b(Pair< int > *,int)
 static void ref_9(Pair< int > *t, int v) { t->_b = v; }
 //REF Pair< short int >::Pair(Pair< short int > const *)
@@ -51,22 +51,22 @@ static short ref_12(Pair< short int > const *t) { return t->first(); }
 static short ref_13(Pair< short int > const *t, short x) { return t->mix(x); }
 //REF Pair< short int >::swap_in(Pair< short int > *,Pair< short int > *)
 static void ref_14(Pair< short int > *t, Pair< short int > *o) { t->swap_in(*o); }
-//OPTIONAL Pair< short int >::get_a(Pair< short int > const *) : c_fnames,c_string_fnames,c,c_string,c_fnames_fptrs,c_fnames_uniq,c_fnames_nodb,c_true_names
+//OPTIONAL Pair< short int >::get_a(Pair< short int > const *) : c_fnames,c_string_fnames,c,c_string,c_fnames_fptrs,c_fnames_uniq,c_fnames_nodb,c_true_names,py_string_fnames,py_fnames,py
 //REF Pair< short int >::get_a(Pair< short int > const *)
 static short ref_15(Pair< short int > const *t) { return t->_a; }
-//OPTIONAL Pair< short int >::set_a(Pair< short int > *,short int) : c_fnames,c_string_fnames,c,c_string,c_fnames_fptrs,c_fnames_uniq,c_fnames_nodb,c_true_names
+//OPTIONAL Pair< short int >::set_a(Pair< short int > *,short int) : c_fnames,c_string_fnames,c,c_string,c_fnames_fptrs,c_fnames_uniq,c_fnames_nodb,c_true_names,py_string_fnames,py_fnames,py
 //REF Pair< short int >::set_a(Pair< short int > *,short int)
 static void ref_16(Pair< short int > *t, short v) { t->_a = v; }
-//OPTIONAL Pair< short int >::get_b(Pair< short int > const *) : c_fnames,c_string_fnames,c,c_string,c_fnames_fptrs,c_fnames_uniq,c_fnames_nodb,c_true_names
+//OPTIONAL Pair< short int >::get_b(Pair< short int > const *) : c_fnames,c_string_fnames,c,c_string,c_fnames_fptrs,c_fnames_uniq,c_fnames_nodb,c_true_names,py_string_fnames,py_fnames,py
 //REF Pair< short int >::get_b(Pair< short int > const *)
 static short ref_17(Pair< short int > const *t) { return t->_b; }
-//OPTIONAL Pair< short int >::set_b(Pair< short int > *,short int) : c_fnames,c_string_fnames,c,c_string,c_fnames_fptrs,c_fnames_uniq,c_fnames_nodb,c_true_names
+//OPTIONAL Pair< short int >::set_b(Pair< short int > *,short int) : c_fnames,c_string_fnames,c,c_string,c_fnames_fptrs,c_fnames_uniq,c_fnames_nodb,c_true_names,py_string_fnames,py_fnames,py
 //REF Pair< short int >::set_b(Pair< short int > *,short int)
 static void ref_18(Pair< short int > *t, short v) { t->_b = v; }
-//OPTIONAL get_g_trace() : c_fnames,c_string_fnames,c,c_string,c_fnames_fptrs,c_fnames_uniq,c_fnames_nodb,c_true_names
+//OPTIONAL get_g_trace() : c_fnames,c_string_fnames,c,c_string,c_fnames_fptrs,c_fnames_uniq,c_fnames_nodb,c_true_names,py_string_fnames,py_fnames,py
 //REF get_g_trace()
 static int ref_19() { return g_trace; }
-//OPTIONAL set_g_trace(int) : c_fnames,c_string_fnames,c,c_string,c_fnames_fptrs,c_fnames_uniq,c_fnames_nodb,c_true_names
+//OPTIONAL set_g_trace(int) : c_fnames,c_string_fnames,c,c_string,c_fnames_fptrs,c_fnames_uniq,c_fnames_nodb,c_true_names,py_string_fnames,py_fnames,py
 //REF set_g_trace(int)
 static void ref_20(int v) { g_trace = v; }
 //REF VBase::VBase(VBase const *)
@@ -75,10 +75,10 @@ static VBase * ref_21(VBase const *o) { return new VBase(*o); }
 static VBase * ref_22(int v) { return new VBase(v); }
 //REF VBase::vb(VBase const *)
 static int ref_23(VBase const *t) { return t->vb(); }
-//OPTIONAL VBase::get_vb(VBase const *) : c_fnames,c_string_fnames,c,c_string,c_fnames_fptrs,c_fnames_uniq,c_fnames_nodb,c_true_names
+//OPTIONAL VBase::get_vb(VBase const *) : c_fnames,c_string_fnames,c,c_string,c_fnames_fptrs,c_fnames_uniq,c_fnames_nodb,c_true_names,py_string_fnames,py_fnames,py
 //REF VBase::get_vb(VBase const *)
 static int ref_24(VBase const *t) { return t->_vb; }
-//OPTIONAL VBase::set_vb(VBase *,int) : c_fnames,c_string_fnames,c,c_string,c_fnames_fptrs,c_fnames_uniq,c_fnames_nodb,c_true_names
+//OPTIONAL VBase::set_vb(VBase *,int) : c_fnames,c_string_fnames,c,c_string,c_fnames_fptrs,c_fnames_uniq,c_fnames_nodb,c_true_names,py_string_fnames,py_fnames,py
 //REF VBase::set_vb(VBase *,int)
 static void ref_25(VBase *t, int v) { t->_vb = v; }
 //REF Left::Left(Left const *)
@@ -87,10 +87,10 @@ static Left * ref_26(Left const *o) { return new Left(*o); }
 static Left * ref_27(int v, int w) { return new Left(v, w); }
 //REF Left::left(Left const *)
 static int ref_28(Left const *t) { return t->left(); }
-//OPTIONAL Left::get_l(Left const *) : c_fnames,c_string_fnames,c,c_string,c_fnames_fptrs,c_fnames_uniq,c_fnames_nodb,c_true_names
+//OPTIONAL Left::get_l(Left const *) : c_fnames,c_string_fnames,c,c_string,c_fnames_fptrs,c_fnames_uniq,c_fnames_nodb,c_true_names,py_string_fnames,py_fnames,py
 //REF Left::get_l(Left const *)
 static int ref_29(Left const *t) { return t->_l; }
-//OPTIONAL Left::set_l(Left *,int) : c_fnames,c_string_fnames,c,c_string,c_fnames_fptrs,c_fnames_uniq,c_fnames_nodb,c_true_names
+//OPTIONAL Left::set_l(Left *,int) : c_fnames,c_string_fnames,c,c_string,c_fnames_fptrs,c_fnames_uniq,c_fnames_nodb,c_true_names,py_string_fnames,py_fnames,py
 //REF Left::set_l(Left *,int)
 static void ref_30(Left *t, int v) { t->_l = v; }
 //REF Right::Right(Right const *)
@@ -99,10 +99,10 @@ static Right * ref_31(Right const *o) { return new Right(*o); }
 static Right * ref_32(int v, int w) { return new Right(v, w); }
 //REF Right::right(Right const *)
 static int ref_33(Right const *t) { return t->right(); }
-//OPTIONAL Right::get_r(Right const *) : c_fnames,c_string_fnames,c,c_string,c_fnames_fptrs,c_fnames_uniq,c_fnames_nodb,c_true_names
+//OPTIONAL Right::get_r(Right const *) : c_fnames,c_string_fnames,c,c_string,c_fnames_fptrs,c_fnames_uniq,c_fnames_nodb,c_true_names,py_string_fnames,py_fnames,py
 //REF Right::get_r(Right const *)
 static int ref_34(Right const *t) { return t->_r; }
-//OPTIONAL Right::set_r(Right *,int) : c_fnames,c_string_fnames,c,c_string,c_fnames_fptrs,c_fnames_uniq,c_fnames_nodb,c_true_names
+//OPTIONAL Right::set_r(Right *,int) : c_fnames,c_string_fnames,c,c_string,c_fnames_fptrs,c_fnames_uniq,c_fnames_nodb,c_true_names,py_string_fnames,py_fnames,py
 //REF Right::set_r(Right *,int)
 static void ref_35(Right *t, int v) { t->_r = v; }
 //REF Left::upcast_to_VBase(Left *)
@@ -137,10 +137,10 @@ static int ref_45(int x) { return Diamond::twice(x); }
 static int ref_46(Diamond const *t) { return t->count; }
 //REF Diamond::set_count(Diamond *,int)
 static void ref_47(Diamond *t, int v) { t->count = v; }
-//OPTIONAL Diamond::get_dd(Diamond const *) : c_fnames,c_string_fnames,c,c_string,c_fnames_fptrs,c_fnames_uniq,c_fnames_nodb,c_true_names
+//OPTIONAL Diamond::get_dd(Diamond const *) : c_fnames,c_string_fnames,c,c_string,c_fnames_fptrs,c_fnames_uniq,c_fnames_nodb,c_true_names,py_string_fnames,py_fnames,py
 //REF Diamond::get_dd(Diamond const *)
 static int ref_48(Diamond const *t) { return t->_dd; }
-//OPTIONAL Diamond::set_dd(Diamond *,int) : c_fnames,c_string_fnames,c,c_string,c_fnames_fptrs,c_fnames_uniq,c_fnames_nodb,c_true_names
+//OPTIONAL Diamond::set_dd(Diamond *,int) : c_fnames,c_string_fnames,c,c_string,c_fnames_fptrs,c_fnames_uniq,c_fnames_nodb,c_true_names,py_string_fnames,py_fnames,py
 //REF Diamond::set_dd(Diamond *,int)
 static void ref_49(Diamond *t, int v) { t->_dd = v; }
 static Tags *verif_make_Tags() { Tags *t = new Tags(0); t->_t = nondet_ulong(); return t; }
@@ -160,9 +160,9 @@ static intptr_t ref_Tags_diff(Tags const *t, intptr_t a, intptr_t b) { return t-
 static std::size_t ref_Tags_size_of(Tags const *t, std::size_t n, std::size_t m) { return t->size_of(n, m); }
 //REF Tags::wide(Tags const *,int64_t,uint64_t)
 static int64_t ref_Tags_wide(Tags const *t, int64_t x, uint64_t y) { return t->wide(x, y); }
-//OPTIONAL Tags::get_t(Tags const *) : c_fnames,c_string_fnames,c,c_string,c_fnames_fptrs,c_fnames_uniq,c_fnames_nodb,c_true_names
+//OPTIONAL Tags::get_t(Tags const *) : c_fnames,c_string_fnames,c,c_string,c_fnames_fptrs,c_fnames_uniq,c_fnames_nodb,c_true_names,py_string_fnames,py_fnames,py
 //REF Tags::get_t(Tags const *)
 static uintptr_t ref_Tags_get_t(Tags const *t) { return t->_t; }
-//OPTIONAL Tags::set_t(Tags *,uintptr_t) : c_fnames,c_string_fnames,c,c_string,c_fnames_fptrs,c_fnames_uniq,c_fnames_nodb,c_true_names
+//OPTIONAL Tags::set_t(Tags *,uintptr_t) : c_fnames,c_string_fnames,c,c_string,c_fnames_fptrs,c_fnames_uniq,c_fnames_nodb,c_true_names,py_string_fnames,py_fnames,py
 //REF Tags::set_t(Tags *,uintptr_t)
 static void ref_Tags_set_t(Tags *t, uintptr_t v) { t->_t = v; }
